@@ -5,11 +5,12 @@ SRC="$REPO/igris/osinter/wait.cpp $REPO/igris/osinter/wait-linux.cpp $REPO/igris
 INC="-I$REPO -I$MC"
 # the ThreadSanitizer build is also the release build (-DNDEBUG): a condition that only an assert() evaluates, or an
 # assert with a side effect, behaves differently there; the AddressSanitizer build keeps the asserts alive
+# and is compiled by the other compiler at -O2 (argument evaluation order, folding and inlining differ between the two)
 for san in address thread; do
   d=$BUILD/$san; mkdir -p $d
-  ND=""; [ $san = thread ] && ND="-DNDEBUG"
-  for f in $SRC; do par g++ -std=c++17 -O1 -g $ND -fsanitize=$san -fno-omit-frame-pointer $INC -c $f -o $d/$(basename $f .cpp).o; done
-  par g++ -std=c++17 -O1 -g $ND -fsanitize=$san -fno-omit-frame-pointer $INC -c $VERIF/harness/c20/c20_sync.cpp -o $d/h.o
+  if [ $san = thread ]; then CXX="g++ -std=c++17 -O1 -DNDEBUG"; else CXX="clang++ -std=c++17 -O2"; fi
+  for f in $SRC; do par $CXX -g -fsanitize=$san -fno-omit-frame-pointer $INC -c $f -o $d/$(basename $f .cpp).o; done
+  par $CXX -g -fsanitize=$san -fno-omit-frame-pointer $INC -c $VERIF/harness/c20/c20_sync.cpp -o $d/h.o
 done
 par g++ -std=c++17 -O2 -g $INC -c $MC/sched/sched.cpp -o $BUILD/sched.o
 par g++ -std=c++17 -O2 $INC -c $MC/mc.cpp -o $BUILD/mc.o
@@ -17,7 +18,8 @@ par gcc -O1 -I$REPO -c $REPO/igris/dprint/dprint_func_impl.c -o $BUILD/dprint.o
 par gcc -O1 -I$REPO -c $REPO/igris/dprint/dprint_stub.c -o $BUILD/dstub.o
 parwait
 for san in address thread; do
-  g++ -fsanitize=$san $BUILD/$san/*.o $BUILD/sched.o $BUILD/mc.o $BUILD/dprint.o $BUILD/dstub.o -ldl -lpthread -o $BUILD/c20_$san
+  LD=g++; [ $san = address ] && LD=clang++
+  $LD -fsanitize=$san $BUILD/$san/*.o $BUILD/sched.o $BUILD/mc.o $BUILD/dprint.o $BUILD/dstub.o -ldl -lpthread -o $BUILD/c20_$san
 done
 echo "asan $BUILD/c20_address" > $BUILD/runs.txt
 echo "tsan $BUILD/c20_thread" >> $BUILD/runs.txt
